@@ -757,7 +757,16 @@ pub fn run_drip(
                 w[2] = 60;
             }
         }
-        match src.weighted(&w) {
+        // After a long stall the environment acts without a draw, so that an
+        // all-zero (minimised) decision list still delivers the input.
+        let forced = if stalled >= 8 && !can_feed.is_empty() {
+            Some(1)
+        } else if stalled >= 8 && !can_drain.is_empty() {
+            Some(2)
+        } else {
+            None
+        };
+        match forced.unwrap_or_else(|| src.weighted(&w)) {
             1 => {
                 let i = *src.pick(&can_feed);
                 let max = case.ins[i].space().min(case.ins[i].total() - case.ins[i].fed());
